@@ -8,6 +8,13 @@ SOURCES = ['Numerics.cpp', 'Linear_Algebra.cpp', 'Integration.cpp', 'Special_Fun
            'Statistics.cpp', 'Utilities.cpp', 'Natural_Units.cpp']
 
 
+DRIVERS = ['/verif/drivers/list_templates.cpp']
+
+
+def all_units():
+    return [Unit(s) for s in SOURCES if s != 'Natural_Units.cpp'] + [Unit(d) for d in DRIVERS if os.path.exists(d)]
+
+
 def _hash_inputs(src):
     h = hashlib.sha256()
     for root in (os.path.join(REPO, 'include', 'libphysica'),):
